@@ -11,7 +11,7 @@ TEXT = {
  "C04": "As C03 over three epochs: crash in epoch 1 (torn writes included), second crash at any file-system call of the recovering Open, acknowledged operations in the recovered session, process death, final recovery and a repeated recovery; every acknowledged write must be present, recovery idempotent, segment append offsets equal file lengths.",
  "C06": "Bounded symbolic model checking under the property's power-loss model (harness FileSystem: directory ops durable, data volatile until File.Sync): histories with durability points, power failure between any two operations (thorough: at any mutating FS call), symbolic choice of the surviving prefixes, real recovery executed symbolically; each key must hold its durable value or a later one (one disjunctive SMT obligation per key).",
  "C09": "As C06 for the clean-shutdown checkpoint: after Close returns nil a power failure (right after Close; thorough: at any FS call of the next Open) with a symbolic choice of what survives in every file must leave exactly the closed contents.",
- "C11": "Quiescent part: bounded symbolic model checking (as C01) with a full Items scan after every step of every history - each live key exactly once with its current value, then ErrIterationDone on further calls - for all hash layouts within the bound. The concurrent part of the property is not claimed yet.",
+ "C11": "Quiescent part: bounded symbolic model checking (as C01) with a full Items scan after every step of every history - each live key exactly once with its current value, then ErrIterationDone on further calls - for all hash layouts within the bound. Concurrent part: scanner and writer (and Compact) as engine threads, all schedules within the bound: truthfulness and completeness of the scan as SMT obligations over the recorded call/return stamps.",
  "C14": "Heap-provenance obligations decided on the symbolic executor's object graph for every explored path (returned slices are not reachable from the DB / file buffers; the DB does not reach caller-owned arrays) plus a semantic double check (caller overwrites, later Put/Compact/Close, compare) as SMT obligations; fs.Mem only.",
  "C16": "Symbolic execution at the real constants for boundary key/value lengths (contents partly symbolic): byte-exact round trips through Put/Get/Has/Items, clean restart and crash recovery; rejection of over-long keys/values without side effects; over-long lookups never match a stored key with the same low 16 length bits.",
  "C05": "Bounded symbolic model checking with threads: Compact runs as one engine thread, a writer as another; the scheduler's choice at every lock acquisition is explored exhaustively within the bound (writer before/between/after any two records compaction processes, between pick and seal), contents and hashes symbolic; afterwards full comparison with the reference, directory check, and process death + real recovery (thorough: crash at any FS call inside the concurrent run).",
